@@ -49,11 +49,24 @@ def _big_stack():
         pass
 
 
-def sh(cmd, timeout=1800, cwd=None, inp=None, env=None):
-    """Run a command, return (rc, stdout, stderr). rc = -9 on timeout."""
+def _limits(mem_gb):
+    def f():
+        _big_stack()
+        if mem_gb:
+            import resource
+            try:
+                resource.setrlimit(resource.RLIMIT_AS, (int(mem_gb * (1 << 30)), int(mem_gb * (1 << 30))))
+            except Exception:
+                pass
+    return f
+
+
+def sh(cmd, timeout=1800, cwd=None, inp=None, env=None, mem_gb=None):
+    """Run a command, return (rc, stdout, stderr). rc = -9 on timeout. mem_gb: address-space limit
+    (not for ASan binaries, which reserve terabytes of virtual memory)."""
     try:
         p = subprocess.run(cmd, cwd=cwd, input=inp, capture_output=True, timeout=timeout, env=env,
-                           shell=isinstance(cmd, str), preexec_fn=_big_stack)
+                           shell=isinstance(cmd, str), preexec_fn=_limits(mem_gb))
         return p.returncode, p.stdout.decode("utf-8", "replace"), p.stderr.decode("utf-8", "replace")
     except subprocess.TimeoutExpired as e:
         out = (e.stdout or b"").decode("utf-8", "replace")
@@ -249,7 +262,7 @@ def write_if_changed(path, content):
 def gen_project():
     """_CoqProject lists every .v under coq/ except Extract/ (extraction runs from ocaml/)."""
     vs = sorted(os.path.relpath(v, COQ) for v in glob.glob(os.path.join(COQ, "**", "*.v"), recursive=True))
-    vs = [v for v in vs if not v.startswith("Extract/")]
+    vs = [v for v in vs if not v.startswith("Extract/") and not v.startswith("Gen/Q")]   # Gen/Q*.v: scratch queries
     write_if_changed(os.path.join(COQ, "_CoqProject"), "-Q . NiflyVerif\n" + "\n".join(vs) + "\n")
 
 
@@ -298,7 +311,7 @@ def gen_ir(tags=("Cur",)):
 
 
 def coq_makefile():
-    if not os.path.exists(os.path.join(COQ, "Gen", "IRCur.v")):
+    if not os.path.exists(os.path.join(COQ, "Gen", "IRCur.v")) or not os.path.exists(os.path.join(COQ, "Gen", "IRRef.v")):
         gen_ir(("Cur",))
     gen_project()
     mk = os.path.join(COQ, "Makefile")
@@ -408,7 +421,7 @@ def build_model_oracle(timeout=900):
 # running oracles
 
 
-def run_lines(binp, args, cases, timeout=600, env=None):
+def run_lines(binp, args, cases, timeout=600, env=None, mem_gb=None):
     """Feed case lines on stdin; returns (rc, output lines, stderr)."""
     inp = ("\n".join(cases) + "\n").encode()
     e = dict(os.environ)
@@ -416,17 +429,17 @@ def run_lines(binp, args, cases, timeout=600, env=None):
     e.setdefault("UBSAN_OPTIONS", "print_stacktrace=1")
     if env:
         e.update(env)
-    rc, out, err = sh([binp] + list(args), inp=inp, timeout=timeout, env=e)
+    rc, out, err = sh([binp] + list(args), inp=inp, timeout=timeout, env=e, mem_gb=mem_gb)
     return rc, out.split("\n")[:-1] if out.endswith("\n") else out.split("\n"), err
 
 
-def run_cases_robust(binp, args, cases, timeout_per_batch=600, batch=2000, env=None):
+def run_cases_robust(binp, args, cases, timeout_per_batch=600, batch=2000, env=None, mem_gb=None, single_timeout=None):
     """Run cases in batches; when a batch crashes or hangs, bisect to the crashing case.
     Returns list of (case, output or None, crashinfo or None)."""
     results = []
 
     def go(chunk, tmo):
-        rc, lines, err = run_lines(binp, args, chunk, timeout=tmo, env=env)
+        rc, lines, err = run_lines(binp, args, chunk, timeout=tmo, env=env, mem_gb=mem_gb)
         if rc == 0 and len(lines) == len(chunk):
             for c, l in zip(chunk, lines):
                 results.append((c, l, None))
@@ -438,7 +451,7 @@ def run_cases_robust(binp, args, cases, timeout_per_batch=600, batch=2000, env=N
         k = min(len(lines), len(chunk) - 1)
         for c, l in zip(chunk[:k], lines[:k]):
             results.append((c, l, None))
-        go([chunk[k]], max(20, tmo // 4))
+        go([chunk[k]], single_timeout or max(20, tmo // 4))
         if k + 1 < len(chunk):
             go(chunk[k + 1:], tmo)
 
